@@ -18,7 +18,7 @@ func (a ArchApp) Analysis(deps []core_domain.CodeDataStruct, identifiersMap map[
 		RelationList: make(map[string]*tequila.Relation),
 	}
 
-	for _, clz := range deps {
+	for _, clz := range core_domain.WithInnerStructures(deps) {
 		if clz.NodeName == "Main" {
 			continue
 		}
